@@ -154,6 +154,9 @@ func runC19(rc *RunCtx) {
 				panic(err)
 			}
 			for _, at := range c19Instants(cfg) {
+				if rc.Expired() {
+					return
+				}
 				for _, via := range []time.Duration{0, time.Millisecond} { // reach T directly, or through a block just before it
 					c := harness.Branch(base)
 					if via > 0 && at > via {
